@@ -23,6 +23,7 @@ type pathEnd struct {
 func unsupported(msg string) pathEnd { return pathEnd{kind: "unsupported", msg: msg} }
 
 type Violation struct {
+	Pkg     string
 	Harness string
 	Params  []int
 	Label   string
